@@ -428,7 +428,7 @@ func TestThorough(t *testing.T) {
 		fix.Pinned(t, prop, replay)
 		systematic(t)
 	}
-	fix.Check(t, "open", 5000, func(rt *rapid.T) { run(rt, drawCase(rt)) })
+	fix.Check(t, "open", 30000, func(rt *rapid.T) { run(rt, drawCase(rt)) })
 }
 
 func TestReplay(t *testing.T) {
